@@ -5,6 +5,7 @@ mod framebuf;
 mod publish;
 mod slots;
 mod smoother;
+mod startok;
 mod tune;
 mod url;
 mod writeprobe;
@@ -61,6 +62,7 @@ fn main() {
         "smoother" => smoother::run(&args),
         "slots" => slots::run(&args),
         "tune" => tune::run(&args),
+        "startok" => startok::run(&args),
         "api" => api::run(&args),
         "publish" => publish::run(&args),
         "writeprobe" => writeprobe::run(&args),
@@ -76,6 +78,7 @@ fn main() {
                 "smoother" => smoother::replay(&v),
                 "slots" => slots::replay(&v),
                 "tune" => tune::replay(&v),
+                "startok" => startok::replay(&v),
                 "api" => api::replay(&v),
                 "publish" => publish::replay(&v),
                 "writeprobe" => writeprobe::replay(&v),
